@@ -133,7 +133,8 @@ class MPRNLRI(Attribute, Family):
         if nexthop_bytes is None:
             nexthop = IP.NoNextHop
         else:
-            nexthop_attr = NextHop.unpack_attribute(nexthop_bytes, Negotiated.UNSET)
+            # the next hop field of MP_REACH_NLRI (4 or 16 octets), not a NEXT_HOP attribute: no IPv4-only length rule
+            nexthop_attr = NextHop.from_packet(nexthop_bytes) if nexthop_bytes else NextHop.UNSET
             if nexthop_attr is NextHop.UNSET:
                 nexthop = IP.NoNextHop
             elif isinstance(nexthop_attr, NextHop):
